@@ -27,7 +27,13 @@ import (
 // trapSignalsPosix captures POSIX-only signals.
 func trapSignalsPosix() {
 	go func() {
-		sigchan := make(chan os.Signal, 1)
+		// The signals are handled one after the other, and a reload
+		// (SIGUSR1) or upgrade takes its time. os/signal does not wait
+		// for room in the channel: with a single slot, a SIGTERM that
+		// arrives while a reload is running and another signal (a SIGHUP,
+		// a second SIGUSR1) already waits is discarded, and the process
+		// never shuts down.
+		sigchan := make(chan os.Signal, 16)
 		signal.Notify(sigchan, syscall.SIGTERM, syscall.SIGHUP, syscall.SIGQUIT, syscall.SIGUSR1, syscall.SIGUSR2)
 
 		for sig := range sigchan {
